@@ -4,6 +4,8 @@
 #[macro_use]
 extern crate tracing;
 
+#[allow(dead_code)]
+mod acpfx;
 mod checks;
 mod fixtures;
 #[allow(dead_code)]
